@@ -9,7 +9,7 @@ CFG = "SPECIFICATION Spec\nINVARIANTS SameDenotation Emit\nPROPERTY IndexStable\
 
 def choice_key(c):
     canon = {"ctx": "none", "base": False, "embed": False, "wrapper": "array", "order": False, "keyOrder": False,
-             "arrays": True, "typeArr": True, "repeat": False, "litObj": True, "split": False}
+             "arrays": True, "typeArr": True, "repeat": False, "litObj": True, "split": False, "kw": "plain"}
     return "+".join(sorted("%s=%s" % (k, str(c[k]).lower()) for k in c if c[k] != canon[k])) or "canonical"
 
 
@@ -49,10 +49,13 @@ def run(tier):
         # all single-choice rewrites + a sample of the combinations
         single = [c for c in rest if choice_key(c["choice"]).count("+") == 0]
         multi = [c for c in rest if choice_key(c["choice"]).count("+") > 0]
-        rest = single + multi[:900]
+        rest = single + multi[:1400]
     rows = []
     for i, c in enumerate(canon + rest):
         rows.append({"id": "rs%05d" % i, "graph": graphs[c["graph"]], "choice": c["choice"], "ws": rnd.randrange(3)})
+        if c["graph"] == "typesTwin" and choice_key(c["choice"]) != "canonical":
+            # validated right after the same serialisation of the graph it differs from by one blank inside a string
+            rows[-1]["before"] = {"id": "twin", "graph": graphs["types"], "choice": c["choice"], "ws": rows[-1]["ws"]}
     obs = vlib.run_harness("reser", rows, "c05", timeout=3000)
     oby = {o["id"]: o for o in obs}
     base = {}
@@ -85,9 +88,10 @@ def run(tier):
     vlib.write_evidence("C05", tier, {
         "states": mc.distinct, "transitions": mc.generated, "traces_validated_against_impl": len(rows),
         "evaluations": len(rows), "distinct_nontrivial": ndiff,
-        "rule": "the surface-choice state machine (ReserCases.tla over JsonLd.tla) explored exhaustively by TLC: %d states = 3 "
-                "graphs (diamond with shared child, cycle+self loop, several classes) x 3072 choice records (context none/"
-                "prefix/@vocab, @base, embedded/flat, @graph wrapper, node order, key order, single/array, @type string/array, "
+        "rule": "the surface-choice state machine (ReserCases.tla over JsonLd.tla) explored exhaustively by TLC: %d states = 4 "
+                "graphs (diamond with shared child, cycle+self loop, several classes, and a twin differing by one blank inside a "
+                "literal, validated right after its twin) x 9216 choice records (context none/prefix/@vocab/by reference, "
+                "keywords plain/aliased/JSON-escaped, @base, embedded/flat, @graph wrapper, node order, key order, single/array, @type string/array, "
                 "repeated value, plain/@value literal, node split over two objects), RoundTrip and IndexStable checked; %d "
                 "serialisations rendered (+3 white-space variants) and compared: ProcessInput's @ids/@types vs Graph!IdsIndex/"
                 "TypesIndex, conforms and (severity, validation, focus, message) set vs the canonical serialisation; "
@@ -107,7 +111,8 @@ def replay(path):
     canon = dict(row)
     canon["id"] = "canon"
     canon["choice"] = {"ctx": "none", "base": False, "embed": False, "wrapper": "array", "order": False, "keyOrder": False,
-                       "arrays": True, "typeArr": True, "repeat": False, "litObj": True, "split": False}
+                       "arrays": True, "typeArr": True, "repeat": False, "litObj": True, "split": False, "kw": "plain"}
+    canon.pop("before", None)
     obs = vlib.run_harness("reser", [row, canon], "replay_c05", shards=1)
     oby = {o["id"]: o for o in obs}
     print(json.dumps(oby["replay"], indent=1)[:3000])
